@@ -322,7 +322,7 @@ func c09ForceScript(v c09Value, targets []tygen.Ty) string {
 		// resources cannot be returned from a script: report their type and uuid-free rendering
 		sb.WriteString("  let out: [AnyStruct] = [\"resource\"]\n")
 		for _, t := range targets {
-			fmt.Fprintf(&sb, "  if true { let v: %s <- %s; let before = v.getType(); let c <- v as! %s; out.append(c.getType() == before); destroy c }\n",
+			fmt.Fprintf(&sb, "  if true { let v: %s <- %s; let before = v.getType(); let c <- v as! %s; out.append(before.identifier.concat(\"|\").concat(c.getType().identifier)); destroy c }\n",
 				v.Decl, v.Expr, t.Source)
 		}
 	}
@@ -570,8 +570,14 @@ func c09JudgeForce(env *mc.Env, l *rt.Ledger, v c09Value, o *c09Obs, vm bool, fa
 		for i, t := range ts {
 			got := arr.Values[i+1].String()
 			if v.Resource {
-				if got != "true" {
-					add("successful-cast-yields-different-value", t, "resource type changed by the cast")
+				// resources cannot leave a script: identity is judged on the dynamic
+				// type, modulo the optional wrapping the cast target adds or removes
+				norm := func(x string) string { return strings.NewReplacer("?", "", "(", "", ")", "", "\"", "").Replace(x) }
+				parts := strings.SplitN(got, "|", 2)
+				if len(parts) != 2 || norm(parts[0]) != norm(parts[1]) {
+					add("successful-cast-yields-different-value", t, "dynamic type before|after the cast: "+got)
+				} else {
+					classes["force:succeeds-same-resource-type"]++
 				}
 				continue
 			}
